@@ -661,8 +661,12 @@ class ConvexPolyhedron(Polyhedron):
 
         """
         _, principal_axes = np.linalg.eigh(self.inertia_tensor)
+        # eigh may return an improper orthogonal matrix, which would mirror the shape.
+        if np.linalg.det(principal_axes) < 0:
+            principal_axes[:, -1] *= -1
         self._vertices = np.dot(self._vertices, principal_axes)
         self._sort_simplices()
+        self._find_equations()
 
     @property
     def mean_curvature(self):
